@@ -300,7 +300,7 @@ def _jsx_purity_extra(ctx):
 plan(Plan(
     id="C08", title="Rendering and tagify are pure and consistent; tagify returns an independent copy",
     contracts=TAGIFY_FNS + DEPS_FNS + RENDER_FNS + DOC_FNS + [CORE + "Tag.__copy__", CORE + "_render_tag_or_taglist", CORE + "_equals_impl", CORE + "TagAttrDict._normalize_attr_name",
-               CORE + "HTMLDependency.source_path_map", CORE + "HTMLDependency.as_dict", CORE + "HTMLDependency.as_html_tags#record", CORE + "HTMLDependency.serialize_to_script_json#record", "htmltools._jsx.JSXTag.__copy__"],
+               CORE + "HTMLDependency.source_path_map", CORE + "HTMLDependency.as_dict", CORE + "HTMLDependency.as_dict#loops", CORE + "HTMLDependency.as_html_tags#record", CORE + "HTMLDependency.serialize_to_script_json#record", "htmltools._jsx.JSXTag.__copy__"],
     lean={"HV.C09": ["C08_tagify_id_T", "C08_tagify_id_L", "C08_tagify_fixed_point"],
           "HV.C08": ["C08_attrsEq_refl", "C08_eq_refl_N", "C08_eq_refl_L", "C08_eq_tag", "C08_eq_kinds", "C08_attrsEq_sound", "C08_nodesEq_cons", "C08_nodesEq_len", "C08_eq_text"],
           "HV.AttrFacts": ["C15_normName_idem"]},
@@ -353,7 +353,7 @@ def _c18_extra(ctx):
 plan(Plan(
     id="C18", title="Output is deterministic across processes and independent of history",
     contracts=[UTIL + "hash_deterministic", CORE + "head_content", CORE + "_resolve_dependencies", CORE + "TagList.get_dependencies", CORE + "Tag.get_dependencies",
-               TDP + "_static_extract_serialized_html_deps", CORE + "_render_tag_or_taglist", CORE + "Tag.__copy__", CORE + "HTMLDocument._gen_html_tag_tree", "htmltools._jsx.JSXTag.__copy__", CORE + "HTMLDependency.source_path_map", CORE + "HTMLDependency.as_dict",
+               TDP + "_static_extract_serialized_html_deps", CORE + "_render_tag_or_taglist", CORE + "Tag.__copy__", CORE + "HTMLDocument._gen_html_tag_tree", "htmltools._jsx.JSXTag.__copy__", CORE + "HTMLDependency.source_path_map", CORE + "HTMLDependency.as_dict", CORE + "HTMLDependency.as_dict#loops",
                CORE + "HTMLDependency.as_html_tags#record", CORE + "HTMLDependency.serialize_to_script_json#record"] + TAGIFY_FNS + RENDER_FNS,
     lean={"HV.C18": ["C18_name_function_of_content", "C18_names_injective", "C18_render_is_a_function"],
           "HV.C10": ["C10_resolve_order", "C10_resolve_names_nodup"], "HV.C13": ["C13_dedup_order", "C13_dedup_nodup"]},
@@ -405,7 +405,7 @@ def _c12_extra(ctx):
 DEPP = CORE + "HTMLDependency."
 plan(Plan(
     id="C12", title="Dependency URLs and copied files agree", level="other",
-    contracts=[DEPP + "source_path_map", DEPP + "as_dict", DEPP + "as_html_tags#record", CORE + "HTMLDocument.save_html", CORE + "Tag.save_html#delegates",
+    contracts=[DEPP + "source_path_map", DEPP + "as_dict", DEPP + "as_dict#loops", DEPP + "as_html_tags#record", CORE + "HTMLDocument.save_html", CORE + "Tag.save_html#delegates",
                CORE + "HTMLDocument._gen_html_tag_tree", CORE + "HTMLDocument._hoist_head_content"],
     lean={"HV.C12": ["C12_pjoin_assoc", "C12_copy_target_is_url_target", "C12_copy_target_is_url_target_nolib", "C12_local_url_shape"]},
     extra=_c12_extra, oracle="c12", design_ref="§7 C12", own=lambda name: True,
